@@ -18,7 +18,7 @@ ASSUMPTIONS = ['data excludes ~ * : (the converter\'s fixed output delimiters; X
                'the component separator (it is the value of ISA16) is a character XML 1.0 can represent; segment and element separators may be control characters',
                'the id of the <comp> wrapper element is not asserted (the property names elements and components)',
                'the intended map path of each segment is the generator\'s ground truth (unambiguous sub-language, DESIGN 4.1)']
-REQUIRED_COUNTERS = ['docs:with-doctype', 'docs', 'segments-compared', 'elements-compared', 'subelements-compared', 'roundtrips', 'docs:escaped-chars', 'docs:repeated-loop', 'docs:notused-filled', 'reach:x12xml_simple.seg']
+REQUIRED_COUNTERS = ['docs:component-separator-inside-a-simple-element', 'docs:with-doctype', 'docs', 'segments-compared', 'elements-compared', 'subelements-compared', 'roundtrips', 'docs:escaped-chars', 'docs:repeated-loop', 'docs:notused-filled', 'reach:x12xml_simple.seg']
 MIN_CASES = {'quick': 200, 'thorough': 6000}
 WATCHDOG_S = {'quick': 1200, 'thorough': 7200}
 
@@ -163,7 +163,7 @@ def judge(ctx, doc, terms, case, sigs):
             if comps is None:
                 continue
             if node.kind == 'ele':
-                v0 = comps[0]
+                v0 = sub_t.join(comps)        # a simple element whose data holds the component separator is still one text
                 if r.node.id == 'ISA' and p == 16:
                     v0 = sub_t
                 want.append(('ele', node.id, v0))
@@ -194,6 +194,7 @@ def judge(ctx, doc, terms, case, sigs):
         return
     got = [p.normal() for p in pieces if not p.blank_only]
     want = []
+    simple_pos = []
     for (r, els) in exp:
         vals = []
         n = max([p for (p, node, comps) in els] + [0])
@@ -202,6 +203,7 @@ def judge(ctx, doc, terms, case, sigs):
             comps = byp.get(p)
             vals.append(list(comps) if comps else [''])
         want.append(gen_doc.norm(r.node.id, [c if len(c) > 1 else c[0] for c in vals]))
+        simple_pos.append(set(p for (p, node, comps) in els if node.kind == 'ele' and comps and len(comps) > 1))
     if len(got) != len(want):
         ctx.viol('roundtrip:segment-count', 'the converted document has a different number of segments', case, {'got': len(got), 'expected': len(want)})
         return
@@ -209,6 +211,10 @@ def judge(ctx, doc, terms, case, sigs):
         if a[0] == 'ISA' and b[0] == 'ISA' and len(a[1]) == 16 and len(b[1]) == 16:
             a = (a[0], a[1][:10] + [['*']] + a[1][11:15] + [['*']])
             b = (b[0], b[1][:10] + [['*']] + b[1][11:15] + [['*']])
+        if simple_pos[i] and a[0] == b[0]:
+            # the text of a simple element that holds the component separator: same characters, whatever the separator is on the way back
+            a = (a[0], [[terms2[2].join(c)] if k + 1 in simple_pos[i] else c for k, c in enumerate(a[1])])
+            b = (b[0], [[sub_t.join(c)] if k + 1 in simple_pos[i] else c for k, c in enumerate(b[1])])
         if a != b:
             ctx.viol('roundtrip:%s' % ('segment-id' if a[0] != b[0] else 'values'), 'X12 -> XML -> X12 changed a segment', dict(case, segment_index=i), {'got': a, 'expected': b})
             return
@@ -250,6 +256,18 @@ def run(ctx):
             if len(doc.recs) > 1500:
                 ctx.count('skipped-large')
                 continue
+            if k % 7 == 3:
+                # one or two plain AN elements get data that holds the component separator ('X<sep>Y', '<sep>Y'): an element error, but the segment
+                # is still located in its map, so rendering and round trip must carry the text unchanged
+                from vlib import faults
+                sites = [x for x in faults.element_sites(doc, None) if x[3] is None and x[1].kind == 'ele' and faults._present(x[4]) and x[1].usage != 'N'
+                         and faults._plain_site(x[0], x[1], x[2], x[3], x[4], doc) and gen_doc.dtype_of(x[1])[0] == 'AN' and not x[1].codes and not x[1].external]
+                rng.shuffle(sites)
+                if sites:
+                    doc = faults.clone(doc)
+                    for (i2, node2, ep2, sp2, cur2) in sites[:rng.choice([1, 2])]:
+                        doc.recs[i2].vals[ep2 - 1] = rng.choice([['X', 'Y'], ['', 'Y'], ['SEE ATTACHED', ' OP REPORT'], ['A', '', 'C']])
+                    ctx.count('docs:component-separator-inside-a-simple-element')
             case = {'map': e['file'], 'entry': e, 'gen_seed': seed, 'params': kw, 'terms': list(terms), 'simple_dtd': [None, 'x12simple.dtd', None, 'http://example.invalid/dtd/x12simple.dtd', None][k % 5]}
             judge(ctx, doc, terms, case, sigs)
             n += 1
